@@ -131,6 +131,10 @@ class AgentsPlugin(Plugin):
 
     def attach(self, mon):
         self.n = 0
+        # the markets every agent was *given* (set-up has just finished): the reference for "markets they can
+        # access", whatever the agents' own bookkeeping says later
+        self.granted = {a.agent_id: {m.market_id for m in mon.markets if a.is_market_accessible(m.market_id)}
+                        for a in mon.agents}
 
     # every order an agent returns is well-formed
     def well_formed(self, mon, agent, out, ttl=None):
@@ -145,7 +149,7 @@ class AgentsPlugin(Plugin):
             bad = None
             if o.agent_id != agent.agent_id:
                 bad = "foreign agent id"
-            elif not agent.is_market_accessible(o.market_id):
+            elif o.market_id not in self.granted.get(agent.agent_id, ()) or not agent.is_market_accessible(o.market_id):
                 bad = "market not accessible"
             elif o.order_id is not None or o.placed_at is not None:
                 bad = "id/placed_at pre-set"
